@@ -6,7 +6,7 @@ prioritized_mux netlists are also compared with the Lean models the theorems are
 import enum
 import itertools
 import pyrtl
-from pyrtl import Input, Output, Const
+from pyrtl import Input, Output, Const, WireVector
 from pyrtl.rtllib import muxes, barrel, libutils
 from vlib import simrun, gen
 from vlib.common import proof_gate, conclude
@@ -96,6 +96,17 @@ def main(ctx):
                          [pyrtl.mux(i[0], *i[1:1 + nin], **({'default': dflt} if has_default else {}))],
                          lambda c, nin=nin, dflt=dflt: [c[1 + c[0]] if c[0] < nin else dflt], rng, limit=11, shape=('nin', nin),
                          lean=({'fn': 'mux', 'nin': nin, 'default': dflt} if True else None))
+        # a default (wire or constant) wider than every listed input: the result is as wide as the default
+        for sw in (2, 3):
+            nin = (1 << sw) - rng.randint(1, 3)
+            dw, ddw = rng.choice([1, 2, 4]), rng.choice([6, 9, 12])
+            run_case(ctx, 'mux_wide_default_wire', [sw] + [dw] * nin + [ddw],
+                     lambda i, nin=nin: [pyrtl.mux(i[0], *i[1:1 + nin], default=i[1 + nin])],
+                     lambda c, nin=nin: [c[1 + c[0]] if c[0] < nin else c[1 + nin]], rng, limit=11, shape=('nin', nin, 'wide-default'))
+            cvd = rng.getrandbits(ddw) | (1 << (ddw - 1))
+            run_case(ctx, 'mux_wide_default_const', [sw] + [dw] * nin,
+                     lambda i, nin=nin, cvd=cvd, ddw=ddw: [pyrtl.mux(i[0], *i[1:1 + nin], default=Const(cvd, ddw))],
+                     lambda c, nin=nin, cvd=cvd: [c[1 + c[0]] if c[0] < nin else cvd], rng, limit=11, shape=('nin', nin, 'wide-const-default'))
         run_case(ctx, 'select', [1, 3, 3], lambda i: [pyrtl.select(i[0], truecase=i[1], falsecase=i[2])],
                  lambda c: [c[1] if c[0] else c[2]], rng)
         # the (deprecated) keyword form of mux, operands of different widths
@@ -115,10 +126,11 @@ def main(ctx):
                 def b_sparse(i, listed=listed):
                     d = {k: i[1 + j] for j, k in enumerate(listed)}
                     d[muxes.SparseDefault] = i[1 + len(listed)]
-                    return [muxes.sparse_mux(i[0], d)]
+                    # the same table dict is used for a second mux
+                    return [muxes.sparse_mux(i[0], d), muxes.sparse_mux(i[0], d)]
                 ws = [sw] + [dw] * (len(listed) + 1)
                 run_case(ctx, 'sparse_mux', ws, b_sparse,
-                         lambda c, listed=listed: [c[1 + listed.index(c[0])] if c[0] in listed else c[1 + len(listed)]],
+                         lambda c, listed=listed: [c[1 + listed.index(c[0])] if c[0] in listed else c[1 + len(listed)]] * 2,
                          rng, limit=12, shape=('listed', listed, 'default'))
             else:
                 ws = [sw] + [dw] * len(listed)
@@ -126,6 +138,25 @@ def main(ctx):
                          lambda i, listed=listed: [muxes.sparse_mux(i[0], {k: i[1 + j] for j, k in enumerate(listed)})],
                          lambda c, listed=listed: [c[1 + listed.index(c[0])]] if c[0] in listed else None,
                          rng, limit=12, shape=('listed', listed))
+        # only small indices listed (of a 3- or 4-bit select) plus a default: every unlisted index, the ones above the
+        # next power of two of the largest listed index included, delivers the default; also through MultiSelector
+        for sw in (3, 4):
+            listed = sorted(rng.sample(range(1, 4), 2))
+            dw = rng.choice([2, 3])
+
+            def b_low(i, listed=listed):
+                d = {k: i[1 + j] for j, k in enumerate(listed)}
+                d[muxes.SparseDefault] = i[1 + len(listed)]
+                outs = [muxes.sparse_mux(i[0], d)]
+                ow = WireVector(len(i[1]))
+                with muxes.MultiSelector(i[0], ow) as ms:
+                    for j, k in enumerate(listed):
+                        ms.option(k, i[1 + j])
+                    ms.default(i[1 + len(listed)])
+                return outs + [ow]
+            run_case(ctx, 'sparse_mux_low_indices', [sw] + [dw] * 3, b_low,
+                     lambda c, listed=listed: [c[1 + listed.index(c[0])] if c[0] in listed else c[3]] * 2,
+                     rng, limit=16, shape=('listed', listed, 'default', sw))
         # sparse_mux with equal constants collapsed
         run_case(ctx, 'sparse_mux_consts', [2, 3],
                  lambda i: [muxes.sparse_mux(i[0], {0: Const(5, 3), 1: Const(5, 3), 2: i[1], 3: Const(5, 3)})],
@@ -202,6 +233,27 @@ def main(ctx):
                     return [(v >> s) | ((fill << max(0, w - s)) & ((1 << w) - 1)) if s < w else fill]
                 run_case(ctx, 'barrel_shifter', [w, 1, 1, sw], lambda i: [barrel.barrel_shifter(i[0], i[1], i[2], i[3])],
                          oracle, rng, limit=12, shape=(w, sw))
+        # ---- bitfield_update_set: several disjoint Python slices (None, negative, open-ended bounds) at once
+        for w in (4, 6, 8):
+            for _k in range(ctx.n(4, 12)):
+                cuts = sorted(rng.sample(range(1, w), 2))
+                forms = [[(None, cuts[0]), (cuts[1], None)], [(0, cuts[0]), (cuts[1] - w, None)], [(None, cuts[0] - w), (-1, None)],
+                         [(cuts[0], cuts[1]), (-(w - cuts[1]), None)], [(cuts[0] - w, cuts[1] - w), (None, 1)] if cuts[0] >= 1 else None]
+                form = rng.choice([f for f in forms if f])
+                idxs = [list(range(w))[st:en] for st, en in form]
+                if any(not ix for ix in idxs) or set(idxs[0]) & set(idxs[1]):
+                    continue
+                fws = [len(ix) for ix in idxs]
+
+                def orc_set(c, idxs=idxs, fws=fws, w=w):
+                    v = c[0]
+                    for ix, fw, nv in zip(idxs, fws, c[1:]):
+                        mask = sum(1 << i for i in ix)
+                        v = (v & ~mask & ((1 << w) - 1)) | ((nv & ((1 << fw) - 1)) << ix[0])
+                    return [v]
+                run_case(ctx, 'bitfield_update_set', [w] + fws,
+                         lambda i, form=form: [pyrtl.bitfield_update_set(i[0], {form[0]: i[1], form[1]: i[2]})],
+                         orc_set, rng, limit=12, shape=(w, tuple(form)))
         # ---- bitfield_update: Python slice bounds
         for w in (1, 3, 5, 8):
             for _k in range(4):
@@ -250,10 +302,20 @@ def main(ctx):
                     res.append(fv)
                 return res
 
-            def bld(i, shown=shown):
-                m, fl = pyrtl.match_bitpattern(i[0], shown)
-                return [m] + list(fl)
-            run_case(ctx, 'match_bitpattern', [n], bld, orc, rng, shape=shown)
+            fmap = {'a': 'zeta', 'b': 'alpha'} if _k % 2 else None      # renamed fields (names sort the other way round)
+
+            def bld(i, shown=shown, fmap=fmap, fields=fields):
+                if fmap is None:
+                    m, fl = pyrtl.match_bitpattern(i[0], shown)
+                    return [m] + list(fl)
+                m, fl = pyrtl.match_bitpattern(i[0], shown, {k_: v_ for k_, v_ in fmap.items() if k_ in fields})
+                # positional order = order of first appearance in the pattern; and each field under its new name
+                return [m] + list(fl) + [getattr(fl, fmap[f]) for f in fields]
+
+            def orc2(c, orc=orc, fmap=fmap):
+                r = orc(c)
+                return r if fmap is None else r + r[1:]
+            run_case(ctx, 'match_bitpattern' if fmap is None else 'match_bitpattern_field_map', [n], bld, orc2, rng, shape=shown)
         # ---- chop / partition_wire
         for _k in range(ctx.n(6, 30)):
             segs = [rng.randint(1, 4) for _ in range(rng.randint(1, 4))]
